@@ -15,11 +15,31 @@ pub fn check(man: &Value, data: &[u8]) -> Value {
     let mut stats: BTreeMap<&str, f64> = BTreeMap::new();
     let Ok(font) = FontRef::new(data) else { return json!({"violations": ["font unreadable"], "stats": {}}) };
     let axes = axes_of(man);
-    let order = expected_order(man);
+    let bracket = man["bracket"].as_bool() == Some(true);
+    let mut order = expected_order(man);
     let ng = font.maxp().map(|m| m.num_glyphs() as usize).unwrap_or(0);
     if ng < order.len() {
         return json!({"violations": [format!("font has {ng} glyphs, source {}", order.len())], "stats": {}});
     }
+    if bracket {
+        // Glyphs bracket layers become extra glyphs the source does not name: glyph identities come from the post
+        // table (the font is compiled without production names; C06 checks names against ids on its own)
+        let names = super::src::post_names(&font, ng as u32);
+        for n in &order {
+            if !names.contains(n) {
+                return json!({"violations": [format!("source glyph '{n}' is not in the font's post table")], "stats": {}});
+            }
+        }
+        order = names;
+    }
+    // what an alternate looks like: the point set of its default-master layer (the rules families draw with lines)
+    let default_master = man["masters"].as_array().and_then(|m| m.first()).and_then(|m| m["name"].as_str()).unwrap_or("").to_string();
+    let layer_points = |name: &str| -> Option<Vec<(i32, i32)>> {
+        let g = man["glyphs"].as_array()?.iter().find(|g| g["name"].as_str() == Some(name))?;
+        let mut pts: Vec<(i32, i32)> = g["layers"][&default_master]["contours"].as_array()?.iter().flat_map(|c| c.as_array().cloned().unwrap_or_default()).map(|p| (super::src::ot_round(f(&p[0])) as i32, super::src::ot_round(f(&p[1])) as i32)).collect();
+        pts.sort();
+        Some(pts)
+    };
     let gid_of: HashMap<&str, u16> = order.iter().enumerate().map(|(i, n)| (n.as_str(), i as u16)).collect();
     let rules = man["rules"]["rules"].as_array().cloned().unwrap_or_default();
     let tag = if man["rules"]["processing"].as_str() == Some("last") { "rclt" } else { "rvrn" };
@@ -148,6 +168,23 @@ pub fn check(man: &Value, data: &[u8]) -> Value {
                 shaper.apply_gsub(&mut buf, &lookups);
                 let got = buf.first().and_then(|g| order.get(*g as usize)).cloned().unwrap_or_default();
                 let exp = want.get(name).cloned().unwrap_or_else(|| name.clone());
+                if bracket && buf.len() == 1 && got != *name && want.contains_key(name) {
+                    // the substitute is a generated bracket glyph: it must belong to this glyph and be drawn like the alternate
+                    let mut ok = got.starts_with(&format!("{name}.BRACKET."));
+                    if ok {
+                        let mut have = super::boundary::raw_simple_points(&font, buf[0] as u32).unwrap_or_default();
+                        have.sort();
+                        ok = Some(have) == layer_points(&exp);
+                        *stats.entry("bracket_substitutes_compared").or_default() += 1.0;
+                    }
+                    if !ok && violations.len() < 12 {
+                        violations.push(format!("at {p:?} under {script} ({tag}): glyph '{name}' becomes '{got}', which is not drawn like '{exp}' (the bracket layer that applies there; applicable rules {applicable:?})"));
+                    }
+                    continue;
+                }
+                if bracket && name.contains(".BRACKET.") {
+                    continue; // generated glyphs are only ever targets
+                }
                 if got != exp || buf.len() != 1 {
                     if violations.len() < 12 {
                         violations.push(format!("at {p:?} under {script} ({tag}): glyph '{name}' becomes '{got}' but the source rules give '{exp}' (applicable rules {applicable:?})"));
